@@ -173,6 +173,7 @@ def run(ctx):
                       what="SlidingWindowClassifier: the training window differs from Model/SlidingWindow.v")
     if meta:
         ctx.sample(meta[len(meta) // 2])
+    sliding_window_varying(ctx, rng)
     # ---- histories ----
     for h in range(30 if ctx.is_quick else 240):
         seed = int(rng.integers(0, 1000))
@@ -285,6 +286,76 @@ def run(ctx):
                 ctx.violation(name, "param_changed", f"get_params differs after {changed[0]} at {changed[1][:3]}", {"strategy": name, "seed": seed, "budget": budget},
                               what=f"{name}.{changed[0]} changed what get_params reports ({changed[1][:3]})")
     ctx.extra["exhaustive"] = False
+
+
+def sliding_window_varying(ctx, rng):
+    """ONE SlidingWindowClassifier, random fit / partial_fit calls between which window_size and only_labeled are changed through
+    set_params and sample weights are passed or not: after every call X_train_ / sample_weight_train_ must be Model.SlidingWindow's
+    swx_step (window cut to the CURRENT window_size; weights window aligned with the window; the AttributeError of a weighted
+    partial_fit after an unweighted call is predicted by the model).  Direct oracle: never more than window_size samples."""
+    from skactiveml.classifier import ParzenWindowClassifier, SlidingWindowClassifier
+    terms, meta = [], []
+    for h in range(150 if ctx.is_quick else 2000):
+        w = int(rng.integers(1, 7))
+        ol = bool(rng.integers(0, 2))
+        sw = SlidingWindowClassifier(ParzenWindowClassifier(classes=[0, 1]), classes=[0, 1], window_size=w, only_labeled=ol)
+        ops, calls, nid = [], [], 0
+        weighted_history = bool(h % 3)        # two thirds of the histories pass weights on every call (no AttributeError path)
+        for step in range(int(rng.integers(2, 9))):
+            if step and rng.random() < 0.35:
+                w = int(rng.integers(1, 7))
+                sw.set_params(window_size=w)
+            if step and rng.random() < 0.15:
+                ol = not ol
+                sw.set_params(only_labeled=ol)
+            k = int(rng.integers(1, 6))
+            ids = list(range(nid, nid + k))
+            nid += k
+            X = np.column_stack([np.array(ids, dtype=float), rng.normal(size=k)])
+            y = rng.integers(0, 2, size=k).astype(float)
+            y[rng.random(k) < (0.3 if h % 5 else 1.0)] = np.nan          # every fifth history: unlabeled batches only
+            is_fit = step == 0 or rng.random() < 0.2
+            wt = True if weighted_history else bool(rng.random() < 0.5)
+            kw = {"sample_weight": np.array(ids, dtype=float) + 1.0} if wt else {}
+            call = f"(({blit(is_fit)}, {natlit(w)}, {blit(ol)}, {blit(wt)}), " + listlit([f"({natlit(i)}, {blit(not np.isnan(v))})" for i, v in zip(ids, y)]) + ")"
+            calls.append({"fit": is_fit, "window_size": w, "only_labeled": ol, "weights": wt, "ids": ids, "labeled": [bool(not np.isnan(v)) for v in y]})
+            try:
+                (sw.fit if is_fit else sw.partial_fit)(X, y, **kw)
+            except AttributeError:
+                ops.append(f"({call}, None)")
+                ctx.count("sliding_window_weights_after_unweighted_call_raises_predicted_by_model")
+                break
+            except Exception as e:
+                ctx.violation("SlidingWindowClassifier", "exception:" + err_class(e), repr(e)[:300], {"calls": calls})
+                ops = None
+                break
+            win = [int(round(r[0])) for r in np.array(sw.X_train_)] if len(sw.X_train_) else []
+            swt = sw.sample_weight_train_
+            wts = None if swt is None else [int(round(v)) - 1 for v in swt]
+            ops.append(f"({call}, Some ({natlist(win)}, {'None' if wts is None else '(Some ' + natlist(wts) + ')'}))")
+            if len(win) > w:
+                ctx.violation("SlidingWindowClassifier", "window_overfull", f"window_size={w}, X_train_ holds samples {win} after {calls}", {"calls": calls, "window": win},
+                              what=f"SlidingWindowClassifier: the window holds {len(win)} samples although window_size={w} (a sliding-window classifier equals a fit on exactly the last window_size samples)")
+                ops = None
+                break
+            if wts is not None and wts != win:
+                ctx.violation("SlidingWindowClassifier", "weights_misaligned", f"window {win}, weights of samples {wts}", {"calls": calls},
+                              what="SlidingWindowClassifier: sample_weight_train_ does not hold the weights of the samples of the window")
+                ops = None
+                break
+        if ops is None:
+            continue
+        ctx.count("sliding_window_varying", len(ops))
+        if nid > w:
+            ctx.nontriv(("winx", tuple(ops)))
+        terms.append(listlit(ops))
+        meta.append({"calls": calls})
+    bad, err = ctx.coq_eval_cases("winx", IMPORTS, "check_winx", terms, chunk=500)
+    if err:
+        ctx.violation("SlidingWindowClassifier", "model_eval_failed", err, {}, found_input=False, what="Coq evaluation of check_winx failed")
+    for i in bad[:5]:
+        ctx.violation("SlidingWindowClassifier", "window_mismatch_varying", "X_train_ / sample_weight_train_ after some call differ from Model/SlidingWindow.v swx_step", meta[i], found_input=False,
+                      what="correspondence Model/SlidingWindow.v (swx_step: parameters changed between calls, weights) <-> SlidingWindowClassifier no longer holds")
 
 
 def replay(ctx, path):
